@@ -347,7 +347,10 @@ def eol_variant(r, t, crlf):
 
 
 LEGENDS = ["# Legend:\na = {fill:red}\n", "# Legend:\nbig = {stroke:blue; fill:none}\nx1={fill:#aaa}\n",
-           "# Legend:\na = {\n  fill: red;\n  stroke: \"x\"\n}\nb = {stroke-width:4}"]
+           "# Legend:\na = {\n  fill: red;\n  stroke: \"x\"\n}\nb = {stroke-width:4}",
+           # empty lines inside the legend: after the header, between entries, twice
+           "# Legend:\n\na = {fill:red}\n", "# Legend:\na = {fill:red}\n\nb = {stroke:blue}\n",
+           "# Legend:\na = {fill:red}\nb2 = {x:y}\n\n\nc = {stroke:blue}"]
 
 
 def c17(tier):
@@ -777,7 +780,15 @@ def sink_cases(r, n, marker_prefix="mk"):
             t = art + "\n# Legend:\n" + pay + " = {fill:red}\n"
         else:
             p = pay.replace("{", "(").replace("}", ")")
-            t = art + "\n# Legend:\n" + "a%s = {%s}\n" % (marker[2:6], p)
+            name = "a%s" % marker[2:6]
+            entries = [(name, p)]
+            if r.random() < 0.6:
+                # several entries, the same class declared more than once: the payload in the first, a middle or the
+                # last declaration of its class
+                filler = ["fill:red;", "stroke:blue", "stroke-width:2"]
+                entries = ([(name, r.choice(filler)) for _ in range(r.randint(0, 2))] + entries
+                           + [(r.choice([name, "zz9"]), r.choice(filler)) for _ in range(r.randint(0, 2))])
+            t = art + "\n# Legend:\n" + "".join("%s = {%s}\n" % e for e in entries)
             exp_s = [p]
         out.append((t, chan, marker, exp_t, exp_s))
     return out
@@ -846,7 +857,7 @@ def c02(tier):
         cases.append((' "' + q + '"', "quoted", [[ord(ch) for ch in q]], []))
         d = "".join(chr(c) for c in chunk if c not in (123, 125))
         cases.append(("a\n# Legend:\nk = {" + d + "}\n", "legend", [], [[ord(ch) for ch in d]]))
-    hostile = ["<", ">", "&", "'", "\"a\"", "]]>", "a&b<c>d", "&amp;", "&#0;", "<!--", "\x00\x01\x02", "\x7f\x80\x9f", "￾￿"]
+    hostile = ["<", ">", "&", "'", "\"a\"", "]]>", "a&b<c>d", "&amp;", "&#0;", "&nbsp;", "&lt;b&gt;", "&#x3c;", "<!--", "\x00\x01\x02", "\x7f\x80\x9f", "￾￿"]
     hostile += ["status\x1bok", "abc\x01def", "m[i[j]]>0", "a[b[0]]>c", "x]]>", "]]>]]>", "a\x08b", "ok\x0cgo", "1<2>0", "a&&b", "\x7f\x1f"]
     for hst in hostile:
         cases.append((hst, "plain", [], []))
@@ -854,6 +865,8 @@ def c02(tier):
         cases.append((' "' + q + '" --', "quoted", [[ord(ch) for ch in q]], []))
         d = hst.replace("{", "(").replace("}", ")")
         cases.append(("a\n# Legend:\nk = {" + d + "}\n", "legend", [], [[ord(ch) for ch in d]]))
+        # the same class declared twice, the hostile string in the later declaration
+        cases.append(("a\n# Legend:\nk = {fill:red}\nj = {x:y}\nk = {" + d + "}\n", "legend", [], [[ord(ch) for ch in d]]))
     reqs = []
     combos = [(a, b, c) for a in (True, False) for b in (True, False) for c in (True, False)]
     for i, (t, chan, _, _) in enumerate(cases):
@@ -1471,6 +1484,10 @@ def c18(tier):
     corpus += [gen.box(8, 1, "sharp", "{a}") + "\n# Legend:\na = {fill:red}\n", "o-->*\n# Legend:\nx={stroke:blue}",
                '\n   "hello  world"\n', '"only quoted"', '"label"\n# Legend:\nb = {fill:blue}\n', "# Legend:\nc = {x:y}\n",
                '  "q1" "q2"\n\n "q3"']
+    # every tenth drawing also carries a quoted string, a tag or a legend (features that take their own path through
+    # the assembly, next to ordinary fragments)
+    for i in range(0, len(corpus), 10):
+        corpus.append(corpus[i] + "\n" + r.choice([' "quoted |+ text" --', '+-----+\n| {k} |\n+-----+  "q"', ' "一二" ab\n# Legend:\nk = {fill:red}']))
     groups = []
     cols = ["red", "#00ff00", "rgb(1,2,3)", "blue", "none", "x\"y", "it's"]
     for t in corpus:
@@ -1535,11 +1552,29 @@ def hostile_inputs(r, n):
            "\x00", "a\x00b", "​", "é", "\U0001F600", "﻿", "一" * 50, "(" * 40, ")" * 40, "\\" * 30, "/" * 30,
            "+" * 60, ("+" * 30 + "\n") * 20, ("|" * 30 + "\n") * 20, (".'" * 20 + "\n") * 10, "o" * 50, "*" * 50, "#" * 50,
            "_" * 80, "=" * 80, "<" * 40 + ">" * 40, "^\n" * 30, "v\n" * 30, "V" * 30]
+    # every drawing glyph at the start of a staircase of k strokes (contact groups of every size 2..12 that contain
+    # the glyph's own fragments), optionally with an arrowhead between glyph and staircase
+    for gi, g in enumerate(gen.FULL):
+        for k in range(1, 11):
+            for pi, pre in enumerate(["", ">", "-"]):
+                rows = [g + pre + "--+"]
+                x = len(rows[0]) - 1
+                for j in range(k - 1):
+                    if j % 2 == 0:
+                        rows.append(" " * x + "|")
+                    else:
+                        rows.append(" " * x + "+--" + ("+" if j < k - 2 else ""))
+                        x += 3
+                out.append("\n".join(rows))
     chunks = gen.bundled_chunks()
     pool = gen.FULL + gen.LABELS + gen.WIDE + gen.LATIN + "\"{}\\#=:, \t" + "​́\x01\x7f￾" + "\U0001F600\U00020000"
     for i in range(n):
-        kind = i % 7
-        if kind == 0:
+        kind = i % 8
+        if kind == 7:
+            # one or two glyphs in focus among plain connectors: every rare glyph meets dense neighbourhoods
+            focus = "".join(r.choice(gen.FULL) for _ in range(r.randint(1, 2)))
+            out.append(gen.random_grid(r, r.randint(3, 12), r.randint(2, 6), focus * 3 + "-|+/\\.'>", r.choice([0.6, 0.9])))
+        elif kind == 0:
             out.append(gen.random_grid(r, r.randint(1, 30), r.randint(1, 12), gen.FULL, r.choice([0.5, 0.9, 1.0])))
         elif kind == 1:
             out.append(gen.random_grid(r, r.randint(1, 20), r.randint(1, 8), pool, r.choice([0.3, 0.7, 1.0])))
